@@ -12,6 +12,9 @@ pub mod c11;
 pub mod c12;
 pub mod c13;
 pub mod c14;
+pub mod c16;
+pub mod c17;
+pub mod c19;
 
 use std::time::Instant;
 
@@ -39,6 +42,12 @@ pub fn run(id: &str, replay: Option<&str>) -> i32 {
         ("C12", Some(p)) => c12::replay(p),
         ("C13", None) => c13::run(started),
         ("C13", Some(p)) => c13::replay(p),
+        ("C16", None) => c16::run(started),
+        ("C16", Some(p)) => c16::replay(p),
+        ("C17", None) => c17::run(started),
+        ("C17", Some(p)) => c17::replay(p),
+        ("C19", None) => c19::run(started),
+        ("C19", Some(p)) => c19::replay(p),
         ("C14", None) => c14::run(started),
         ("C14", Some(p)) => c14::replay(p),
         ("C03", None) => c03::run(started),
